@@ -47,7 +47,8 @@ KNOWN_TEXT = {
 def run(ctx):
     ctx.cov["rule"] = ("chains of 1..3 sequences of messages drawn from the whole factory (scalars, arrays, strings, invalid sentinels, unknown messages/fields, developer fields "
                        "with descriptions), timestamp patterns {monotone, back inside window, jumps, < DateTimeMin / invalid}, x byte order x header option x local types 0..16 x "
-                       "protocol version x validator option x header size 12/14 x buffer size; every other chain also written message by message through the stream encoder; chains "
+                       "protocol version x validator option x header size 12/14 x buffer size; every other chain also written message by message through the stream encoder; a chain with a rejected file is "
+                       "encoded again file by file with one encoder that goes on after the rejection; files without messages; encoders without a usable destination; chains "
                        "whose later file uses developer fields declared only in the first file (must be rejected by both encoders); non-trivial = encode accepted; distinct by input text")
     ctx.cov["checker_cmd"] = "coq/build.sh Props/C01.vo Run/RunC01.vo; coqc Props/C01.v; coqc cases_C01_*.v (vm_compute: check_enc, check_dec)"
     ctx.assumptions += ["inputs of the round-trip oracle satisfy wf_input (DESIGN.md C01): value shape agrees with the array flag, one field per number, no empty string in slices",
@@ -69,6 +70,7 @@ def run(ctx):
     if h.rc != 0:
         ctx.broken.append("harness c01 failed: " + getattr(h, "stderr", "")[-300:])
     enc, dec, senc = h.lines.get("ENC", []), h.lines.get("DEC", []), h.lines.get("SENC", [])
+    ence = h.lines.get("ENCE", [])
     ctx.count(len(enc) + len(dec) + len(senc), [e for e in enc + senc if "EOk" in e])
     found = False
     for f in h.fails[:3]:
@@ -78,7 +80,21 @@ def run(ctx):
         if not ctx.known(kid, KNOWN_TEXT.get(kid, kid) + " -- e.g. " + str(js.get("diff", ""))[:160]):
             ctx.violation({"source": "direct Go oracle (unlisted finding %s)" % kid, "failing": js})
             found = True
+    # the round trip holds whatever the destination is (C01_roundtrip_any_writer): every writer kind / buffer size / batch or stream,
+    # also when appending to earlier content (the documented append flow), must leave the bytes the plain strategy wrote
+    h9 = ctx.harness(["c09", "--seed", ctx.seed + 2000, "--tier", ctx.tier, "-n", 10 if ctx.tier == "quick" else 200], timeout=3000)
+    ctx.count(h9.stats.get("oracle_configurations", 0) + h9.stats.get("oracle_configurations_preexisting", 0))
+    for f in h9.fails[:2]:
+        ctx.violation({"source": "direct Go oracle: the bytes an accepted sequence leaves in the destination depend on the writer kind / buffer size / stream / earlier "
+                                 "content, so what is decoded back is not what was written", "failing": f})
+        found = True
     if ok:
+        bad, err = ctx.run_cases("Run.RunC01", "ecfg * list ifile * list eobs", ence, check="check_enc_each", shard=25)
+        if err:
+            ctx.broken.append("correspondence (encoder going on after a rejected file) could not be evaluated: " + str(err)[:300])
+        for i in bad[:2]:
+            ctx.violation({"source": "correspondence: an encoder that goes on after a rejected file differs from a fresh encoder (model: encode_fit per file)", "case": ence[i][:20000]})
+            found = True
         for name, cases, ctype, chk in (("encoder", enc, "ecfg * list ifile * eobs", "check_enc"), ("decoder", dec, "bool * bool * bytes * ores", "check_dec"),
                                         ("stream encoder (accepts what encode_fit accepts, same bytes)", senc, "ecfg * list ifile * eobs", "check_senc"),
                                         ("message-level stream model (Model/Stream.v)", senc, "ecfg * list ifile * eobs", "check_stream_model")):
